@@ -160,9 +160,10 @@ func c15traversal(x *runner.X) {
 	}
 	// CAR bytes
 	var car bytes.Buffer
+	// 1..8 roots: the header is 58..317 bytes long, its length prefix one or two bytes
 	roots := []cid.Cid{c15cid([]byte("root"))}
-	if t.Bool(0.3) {
-		roots = append(roots, c15cid([]byte("root2")))
+	for k := t.Pick(0, 0, 1, 2, 3, 4, 5, 7); k > 0; k-- {
+		roots = append(roots, c15cid([]byte(fmt.Sprintf("root%d", k))))
 	}
 	if err := carv1.WriteHeader(&carv1.CarHeader{Roots: roots, Version: 1}, &car); err != nil {
 		panic(err)
